@@ -11,7 +11,7 @@ ASSUMPTIONS = [
     "alloc_ignore_limit call sites are deliberate escape hatches and are not verified",
     "termination not proved by Kani",
 ]
-NOT_UNDER_CONTRACT = ["TailCall frame reuse in thread.rs", "interrupt polling in execute", "native-stack depth of compiler/typechecker recursion",
+NOT_UNDER_CONTRACT = ["interrupt polling in execute", "native-stack depth of compiler/typechecker recursion",
                       "induction over Compiler::compile_ that max_stack_size bounds run-time use (compile_ also edits stack_size directly)"]
 GC = "vm/src/gc.rs"
 
@@ -36,6 +36,8 @@ def obligations(tier):
         v("stack", "StackFrame::add_new_frame", "Ok <=> len + max_stack_size(state) <= stack.max_stack_size; Err(StackOverflow(limit)) leaves the stack unchanged; Ok pushes exactly the frame {offset: len-args, state, excess}", "vm/src/stack.rs::StackFrame::add_new_frame"),
         v("stack", "StackFrame::enter_scope_excess", "the entry point of every call: Ok <=> len + max_stack_size(state) <= limit, Err(StackOverflow(limit)) otherwise; Ok pushes exactly one frame and leaves the values alone", "vm/src/stack.rs::StackFrame::enter_scope_excess"),
         v("stack", "StackFrame::enter_scope", "same guarantee for enter_scope (excess = false)", "vm/src/stack.rs::StackFrame::enter_scope"),
+        v("stack", "arm::TailCall", "a tail call leaves the running frame first (the frame list shrinks) and moves the new function and its arguments down onto the slot of the returning function: nothing of the finished call remains on the stack (constant stack); pending excess arguments are appended to the call", "vm/src/thread.rs::execute_ arm TailCall"),
+        v("stack", "ExecuteContext::exit_scope", "leaving a scope pops exactly the top frame, never a locked one", "vm/src/thread.rs::ExecuteContext::exit_scope"),
         v("compiler", "compile_primitive::or", "tail position is propagated into the right operand of `||` (so a recursive call there is a TailCall and runs in constant stack)", "vm/src/compiler.rs::compile_primitive (|| block)"),
         v("compiler", "compile_primitive::and", "tail position is propagated into the right operand of `&&`", "vm/src/compiler.rs::compile_primitive (&& block)"),
         v("compiler", "Instruction::adjust", "adjust(i) == documented stack effect of i", "vm/src/types.rs::Instruction::adjust"),
